@@ -116,7 +116,14 @@ def h_solve(ctx, n, k, kinds, D, P):
     else:
         _nonsingular(ctx, A)
     try:
-        x = algopy.solve(a, b)
+        if ctx.opts.get('dirty_out'):
+            # a reused workspace as out=: the result must not depend on what it held before
+            W = V(ctx, 'w', (D, P, n, k))
+            outb = mk_utpm(ctx, algopy, W)
+            x = algopy.UTPM.solve(a, b, out=outb)
+            ctx.fact(x is outb, 'the out= buffer is returned')
+        else:
+            x = algopy.solve(a, b)
     except Exception as e:
         ctx.fact(False, 'solve%s raised %s: %s' % ((n, k, kinds), type(e).__name__, str(e)[:120]))
         return
@@ -257,6 +264,8 @@ def units(tier, seed):
     for what in ('solve(A, int B)', 'solve(int A, B)', 'dot(A, int)', 'dot(int, A)'):
         add('integer constant/%s/D3,P2' % what, 'h_int_constant', what=what, D=3, P=2)
     add('solve/3x3,k1/UU/D3,P1', 'h_solve', n=3, k=1, kinds='UU', D=3, P=1)
+    add('solve/2x2,k1/UU/out= reused workspace/D4,P2', 'h_solve', o={'dirty_out': True}, n=2, k=1, kinds='UU', D=4, P=2)
+    add('solve/2x2,k2/UU/out= reused workspace/D3,P1', 'h_solve', o={'dirty_out': True}, n=2, k=2, kinds='UU', D=3, P=1)
     add('solve/3x3,k1/NU/D2,P2', 'h_solve', n=3, k=1, kinds='NU', D=2, P=2)
     add('solve/3x3,k2/UN/D2,P1', 'h_solve', n=3, k=2, kinds='UN', D=2, P=1)
     for fn in ('det', 'logdet'):
